@@ -19,6 +19,7 @@ B_HASH = '%s of 4 nodes, symbolic distinct 8-bit hash codes (collisions inside)'
 def hash_loops(nb):
     r = '_ZN6asmjit5v1_2113ArenaHashBase7_rehashERNS0_5ArenaEj'; c = '_ZL10hash_checkILj29EEvRN6asmjit5v1_219ArenaHashI5HNodeEER6HState'
     return ','.join(['%s.%d:%d' % (r, i, max(nb + 1, 7)) for i in range(6)] + ['%s.%d:31' % (c, i) for i in range(12)])
+BITSET_LOOPS = ','.join('_ZN6asmjit5v1_2111ArenaBitSet7_resizeERNS0_5ArenaEmmb.%d:5' % i for i in range(7))  # word loops of _resize: at most 3 words
 B_ONE = 'one 128-byte heap block, 8-aligned cursor symbolic, block-size shift 7'
 B_CHAIN = 'chain of 1..3 heap blocks (payload 128/64/256), current block and 8-aligned cursor symbolic, block-size shift 7..8'
 HARNESSES = [
@@ -61,11 +62,12 @@ HARNESSES = [
     Harness('vec', 'h_vec_tri', unwind=10, bounds='ArenaVector<12-byte struct>: same as h_vec_u32', mem_gb=4, timeout=900),
     Harness('vec', 'h_vec_huge_u32', unwind=4, bounds='reserve_fit/reserve_grow/reserve_additional with any 64-bit item count > 2, arena failing or granting', mem_gb=4, timeout=900),
     Harness('vec', 'h_vec_huge_tri', unwind=4, bounds='same for the 12-byte item', mem_gb=4, timeout=900),
-    Harness('vec', 'h_bitset_bits', unwind=130, bounds='any bit set of size 0..128 (two words, symbolic content); bit_at/set_bit/add_bit/clear_bit/xor_bit at any index, append within capacity, truncate, clear', mem_gb=4, timeout=900),
-    Harness('vec', 'h_bitset_ranges', unwind=130, bounds='any bit set of size 0..128; clear_all/fill_all/clear_bits/fill_bits over any range, iteration over set bits', mem_gb=4, timeout=900),
-    Harness('vec', 'h_bitset_combine', unwind=130, bounds='two bit sets of sizes 0..128; and_/or_/and_not/equals/copy_from', mem_gb=4, timeout=900),
-    Harness('vec', 'h_bitset_resize', unwind=200, bounds='any bit set of size 0..128 with capacity 64 or 128; resize to 0..192 with either value, or growing append', mem_gb=4, timeout=900),
-    Harness('vec', 'h_bitset_resize_kf_D18B', unwind=200, known='D18B', bounds='resize growing from a size that is not a multiple of 64', mem_gb=4, timeout=900),
+    Harness('vec', 'h_vec_huge_kf_D18C', unwind=4, known='D18C', bounds='12-byte item, restricted to: the arena grants a block of 2^32 items or more', mem_gb=4, timeout=900),
+    Harness('vec', 'h_bitset_bits', unwind=194, bounds='any bit set of size 0..128 (two words, symbolic content); bit_at/set_bit/add_bit/clear_bit/xor_bit at any index, append within capacity, truncate, clear', mem_gb=4, timeout=900),
+    Harness('vec', 'h_bitset_ranges', unwind=194, bounds='any bit set of size 0..128; clear_all/fill_all/clear_bits/fill_bits over any range, iteration over set bits', mem_gb=4, timeout=900),
+    Harness('vec', 'h_bitset_combine', unwind=194, bounds='two bit sets of sizes 0..128; and_/or_/and_not/equals/copy_from', mem_gb=4, timeout=900),
+    Harness('vec', 'h_bitset_resize', unwind=194, unwindset=BITSET_LOOPS, bounds='any bit set of size 0..128 with capacity 64 or 128; resize to 0..192 with either value, or growing append', mem_gb=4, timeout=900),
+    Harness('vec', 'h_bitset_resize_kf_D18B', unwind=194, unwindset=BITSET_LOOPS, known='D18B', bounds='resize growing from a size that is not a multiple of 64', mem_gb=4, timeout=900),
     Harness('vec', 'h_bitvec_ops', unwind=195, bounds='3 symbolic words; bit_vector_fill/clear over any range, index_of from any start, BitVectorIterator from any start', mem_gb=4, timeout=900),
     Harness('vec', 'h_bitword_iter', unwind=130, bounds='all 64-bit / 32-bit words; BitVectorOpIterator<AndNot> over 2x2 symbolic words', mem_gb=4, timeout=900),
 ]
